@@ -155,9 +155,75 @@ def fragment_facts(fx, cg, fn):
         for b2, t2 in body.calls():
             if (callee_path(t2["callee"]) or "").endswith("MoofBox as mp4box::ReadBox<&mut R>>::read_box") and vl is not None and c07.derives_from(body, vl["l"], t2["dest"]["l"]):
                 facts["decode"] = True
+    def field_elem_ty(proj):
+        flds = [x for x in proj if isinstance(x, dict) and "f" in x]
+        if len(flds) != 1 or flds[0].get("adt") not in fx.adts:
+            return None
+        for v in fx.adts[flds[0]["adt"]]["variants"]:
+            for f_ in v["fields"]:
+                if f_["name"] == flds[0]["f"]:
+                    return vec_elem_ty(f_["ty_s"].replace(", alloc::alloc::Global", ""))
+        return None
+
+    # the accumulator form: the loop body lives in a same-file helper that pushes into two fields of a `&mut` struct
+    # parameter (`acc.moofs.push(moof); acc.moof_offsets.push(current)`); the local accumulator is the struct the open
+    # function lends, the pushed offset is what the open function passes for that parameter
+    acc_off = None
+    if not (local_moof and local_off):
+        f0 = (fn.get("span") or {}).get("file")
+        for cb, ct in body.calls():
+            g = callee_path(ct["callee"])
+            gf = fx.fns.get(g)
+            gb = body_of(gf) if gf is not None and (gf.get("span") or {}).get("file") == f0 and gf["kind"] != "Closure" else None
+            if gb is None:
+                continue
+            hm = ho = None
+            for pb, pt in gb.calls():
+                if strip_generics(pt["callee"].get("path") or "") != "alloc::vec::Vec::push" or len(pt["args"]) != 2:
+                    continue
+                l_, proj_ = root_local(gb, pt["args"][0])
+                if l_ is None or not (1 <= l_ <= gb.argc):
+                    continue
+                ety = field_elem_ty(proj_)
+                if ety and ety.endswith("MoofBox"):
+                    hm = (pb, pt, l_)
+                elif ety == "u64":
+                    ho = (pb, pt, l_)
+            if not (hm and ho) or hm[2] != ho[2] or hm[2] - 1 >= len(ct["args"]):
+                continue
+            al, aproj = root_local(body, ct["args"][hm[2] - 1])
+            if al is None or [x for x in aproj if x != "deref"]:
+                continue
+            local_moof, local_off = (cb, ct, al), (cb, ct, al)
+            vl = op_place(hm[1]["args"][1])
+            for b2, t2 in gb.calls():
+                if (callee_path(t2["callee"]) or "").endswith("MoofBox as mp4box::ReadBox<&mut R>>::read_box") and vl is not None and c07.derives_from(gb, vl["l"], t2["dest"]["l"]):
+                    facts["decode"] = True
+            b1, b2 = hm[0], ho[0]
+            acc_lock = (gb.dominates(b1, b2) and b2 in gb.pdom().get(b1, ())) or (gb.dominates(b2, b1) and b1 in gb.pdom().get(b2, ()))
+            # the pushed offset: a plain copy of one of the helper's parameters
+            facts["offset"] = gb.canon_op(ho[1]["args"][1])
+            src = op_place(ho[1]["args"][1])
+            src = src["l"] if src is not None and not src["p"] else None
+            for _ in range(4):
+                sd = gb.single_def(src) if src is not None and src > gb.argc else None
+                if sd and sd[2] == "assign" and sd[3]["k"] == "use" and op_place(sd[3]["a"]) is not None and not op_place(sd[3]["a"])["p"]:
+                    src = op_place(sd[3]["a"])["l"]
+                else:
+                    break
+            if src is not None and 1 <= src <= gb.argc and not gb.defs().get(src) and src - 1 < len(ct["args"]):
+                acc_off = (cb, ct["args"][src - 1], acc_lock)
+            break
     if local_off:
         b, t, l = local_off
-        facts["offset"] = body.canon_op(t["args"][1])
+        if acc_off is not None:
+            off_op = acc_off[1]
+        elif t["args"] and len(t["args"]) == 2 and strip_generics(t["callee"].get("path") or "") == "alloc::vec::Vec::push":
+            off_op = t["args"][1]
+        else:
+            off_op = None
+        if off_op is not None and (acc_off is not None or facts["offset"] is None):
+            facts["offset"] = body.canon_op(off_op)
         # the walk loop containing the push and its header read
         ls = LP.inventory(fx, fn["id"])
         inl = [L for L in ls if b in L.blocks]
@@ -166,7 +232,7 @@ def fragment_facts(fx, cg, fn):
             for hb, ht in LP.calls_in(body, L.blocks):
                 if (callee_path(ht["callee"]) or "").endswith("BoxHeader::read"):
                     hdr = (L, hb)
-        vl = op_place(t["args"][1])
+        vl = op_place(off_op) if off_op is not None else None
         if hdr and vl is not None:
             L, hb = hdr
             # the pushed value must be (a copy of) a value that is defined before the header read on every iteration and
@@ -219,7 +285,9 @@ def fragment_facts(fx, cg, fn):
             late = [db for (db, di, kind, payload) in defs if db in L.blocks and body.dominates(hb, db) and body.can_reach(db, b, avoid=[L.head])]
             if len(defs) >= 1 and from_pos and not arith and not late:
                 facts["offset"] = "loop-position"
-    if local_moof and local_off:
+    if acc_off is not None:
+        facts["lockstep"] = bool(acc_off[2])
+    elif local_moof and local_off:
         b1, b2 = local_moof[0], local_off[0]
         facts["lockstep"] = (body.dominates(b1, b2) and b1 in body.pdom().get(b2, ()) or b2 in body.pdom().get(b1, ())) or (body.dominates(b2, b1) and b2 in body.pdom().get(b1, ()) or b1 in body.pdom().get(b2, ()))
     # attach / lookup / unknown / default: in the open function itself or in a local helper it calls (same source file,
